@@ -128,7 +128,7 @@ fn c07_convert_never_forbidden() {
     vcover!(c1.note_num >= 12 && v1 == v2 && c2.note_num != c1.note_num, "witness: same input above octave 0, note had to change");
     vcover!(f_len == 12 && c1.note_num >= 24, "witness: forbid tried to empty the scale, octave >= 2");
     vcover!(v2.is_nan(), "witness: NaN input");
-    vcover!(c2.note_num == 131, "witness: highest note");
+    vcover!(c2.note_num >= 121, "witness: a note above 10 V");
 }
 
 // @harness prop=C17,C19 tier=quick timeout=900 unwindset=find_nearest_note:4,13
@@ -144,7 +144,7 @@ fn c17_convert_no_panic_from_any_state() {
     vassert!(q.allowed == allowed, "C17/convert/does-not-edit-the-scale");
     vassert!(c.note_num <= 131, "C17/convert/note-number-bounded");
     vcover!(v.is_nan(), "witness: NaN input");
-    vcover!(c.note_num == 131, "witness: highest note");
+    vcover!(c.note_num >= 121, "witness: a note above 10 V");
 }
 
 // @harness prop=C07,C20,C17 tier=quick timeout=600
@@ -300,7 +300,7 @@ macro_rules! c09_hysteresis_step {
 // =====================================================================
 
 // @harness prop=C19 tier=quick timeout=1500 unwindset=find_nearest_note:4,13
-// @about one conversion from any Inv_q state (with or without history), any scale, any f32 v: stairstep == note/12 (f32 division, exactly); for finite v in [0,10]: |stairstep + fraction - v| <= 2 ulp(v) (ulp of 1.0 below 1 V); outside [0,10]: stairstep + fraction reproduces v or its clamped value within the same tolerance; chromatic scale without history: 0 <= fraction < 1 semitone (+-10 microvolts, the quantizer's stated tie tolerance); when the window kept the previous note: -0.1 <= fraction <= 1.1 semitones
+// @about one conversion from any Inv_q state (with or without history), any scale, any f32 v: stairstep == note/12 (f32 division, exactly); for finite v in [0,10]: |stairstep + fraction - v| <= 2 ulp(v) (ulp of 1.0 below 1 V); outside [0,10]: stairstep + fraction reproduces v or its clamped value within the same tolerance; chromatic scale without history: 0 <= fraction < 1 semitone (+-10 microvolts, the quantizer's stated tie tolerance); when the window kept the previous note: -0.1 <= fraction <= 1.1 semitones (+-10 microvolts)
 #[kani::proof]
 #[kani::unwind(14)]
 fn c19_record_consistency() {
@@ -335,7 +335,9 @@ fn c19_record_consistency() {
         let kept = still_allowed && c.note_num == n0
             && (v as f64) > (n0 as f64 - 0.1) / 12.0 - 1.0e-6 && (v as f64) < (n0 as f64 + 1.1) / 12.0 + 1.0e-6;
         if kept {
-            vassert!(c.fraction as f64 >= -0.1 * semi - 2.0e-6 && c.fraction as f64 <= 1.1 * semi + 2.0e-6,
+            // 10 microvolts: the f32 grid at 10 V is about 1 microvolt and stairstep, window edge and
+            // difference are each rounded to it
+            vassert!(c.fraction as f64 >= -0.1 * semi - 1.0e-5 && c.fraction as f64 <= 1.1 * semi + 1.0e-5,
                 "C19/kept-note-fraction-in-[-0.1,1.1]-semitones");
         }
     }
